@@ -1021,17 +1021,19 @@ def expr_cond_type(L, R, tgt):
     lt, rt = value_type(L), value_type(R)
     if is_arith(lt) and is_arith(rt):
         return usual_arith(lt, rt, tgt, L.bf, R.bf)
-    if is_pointer(lt) and R.npc and not (L.npc and not is_pointer(rt)):
-        return lt
-    if is_pointer(rt) and L.npc:
-        return rt
     if is_pointer(lt) and is_pointer(rt):
+        if L.npc != R.npc:
+            return rt if L.npc else lt          # p6: the type of the operand that is not the null pointer constant
         (lb, lq), (rb, rq) = unq(lt.to), unq(rt.to)
         q = tuple(sorted(set(lq) | set(rq)))
         if compatible(lb, rb):
             return Ptr(qualify(composite(lb, rb), q))
         if (lb == VOID and is_object(rb)) or (rb == VOID and is_object(lb)):
             return Ptr(qualify(VOID, q))
+    elif is_pointer(lt) and R.npc:
+        return lt
+    elif is_pointer(rt) and L.npc:
+        return rt
     raise Invalid('?:')
 
 
